@@ -9,6 +9,9 @@
 //   E start <hexname> <line> <d> [<hexattr>[!]]...   the SAX event as seen by the handler (! = value non-empty)
 //   E stop <line> <d>                                d = 1 unless a non-structural error() was recorded here
 //   E text <line> <hex>
+//   C start <hexname> <line> [<hexattr>=<hexvalue>]...   the same event with the REAL attribute strings (for the value model)
+//   C stop <line> <pd>                                   pd = 0 iff the error recorded here is "covariance matrix is not positive definite"
+//   C text <line> <hex>
 //   R <state> <kind|->        GKFparser::state after the handler; kind when error() was first recorded here
 //   M <message id>            symbolic id of errString (information for the comparator, not produced by the model)
 //   X <exception kind>        an exception left a handler (through expat)
@@ -29,6 +32,8 @@
 #include <gnu_gama/gon2deg.h>
 #include <csignal>
 #include <unistd.h>
+#include <sys/time.h>
+#include <cstring>
 #include "proto.h"
 
 using namespace GNU_gama::local;
@@ -80,9 +85,11 @@ public:
   std::string after(const char* evkind) {        // -> kind token of the R line, sets d
     std::string kind = "-";
     d = 1;
+    pd = 1;
     if (!had_err && errCode != 0) {
       had_err = true;
       const MsgId* m = classify(errString);
+      if (m && std::strcmp(m->id, "cov_not_posdef") == 0) pd = 0;
       if (m && m->structural) kind = m->id;
       else { kind = evkind; d = 0; }
       msg = m ? m->id : (errString.compare(0, 26, "T_GKF_cov_dim_differs_from") == 0 ? "cov_dim_differs" : "other");
@@ -91,8 +98,9 @@ public:
   }
   int startElement(const char* cname, const char** atts) override {
     int line = XML_GetCurrentLineNumber(parser);
-    std::ostringstream a;
+    std::ostringstream a, c;
     for (const char** p = atts; *p; p += 2) a << " " << tohex(p[0], std::strlen(p[0])) << (p[1][0] ? "!" : "");
+    for (const char** p = atts; *p; p += 2) c << " " << tohex(p[0], std::strlen(p[0])) << "=" << tohex(p[1], std::strlen(p[1]));
     try { GKFparser::startElement(cname, atts); }
     catch (...) {
       std::cout << "E start " << tohex(cname, std::strlen(cname)) << " " << line << " x" << a.str() << "\n";
@@ -100,6 +108,7 @@ public:
     }
     std::string k = after("handler");
     std::cout << "E start " << tohex(cname, std::strlen(cname)) << " " << line << " " << d << a.str() << "\n";
+    std::cout << "C start " << tohex(cname, std::strlen(cname)) << " " << line << c.str() << "\n";
     result(k);
     return 0;
   }
@@ -109,6 +118,7 @@ public:
     catch (...) { std::cout << "E stop " << line << " x\n"; throw; }
     std::string k = after("finish");
     std::cout << "E stop " << line << " " << d << "\n";
+    std::cout << "C stop " << line << " " << pd << "\n";
     result(k);
     return 0;
   }
@@ -117,6 +127,7 @@ public:
     GKFparser::characterDataHandler(s, len);
     std::string k = after("handler");
     std::cout << "E text " << line << " " << tohex(s, len) << "\n";
+    std::cout << "C text " << line << " " << tohex(s, len) << "\n";
     result(k);
     return 0;
   }
@@ -129,11 +140,20 @@ public:
   bool integer_ok(const std::string& s) const { return GNU_gama::IsInteger(s); }
   bool had_err = false;
   int d = 1;
+  int pd = 1;
   std::string msg;
 };
 
 // a document on which the parser does not come back within the limit: report and leave with status 88
 // (the runner restarts the harness after the offending case)
+// termination is judged by CPU time, not wall time (a loaded machine must not look like a hang):
+// ITIMER_PROF counts the user+system CPU time of this process and raises SIGPROF when it is used up
+static void cpu_limit(int seconds) {
+  struct itimerval t;
+  std::memset(&t, 0, sizeof t);
+  t.it_value.tv_sec = seconds;
+  setitimer(ITIMER_PROF, &t, nullptr);
+}
 static void on_alarm(int) {
   static const char m[] = "O timeout\n";
   ssize_t r = write(1, m, sizeof m - 1); (void)r;
@@ -181,7 +201,7 @@ static std::string lit_result(Probe& p, const std::string& s) {
 int main()
 {
   set_gama_language(en);
-  std::signal(SIGALRM, on_alarm);
+  std::signal(SIGPROF, on_alarm);
   std::string line;
   bool is_case;
   LocalNetwork ln0;
@@ -191,9 +211,9 @@ int main()
     std::vector<std::string> t = vp::tokens(line);
     if (t.size() == 3 && t[0] == "doc") {
       std::cout.flush();
-      alarm(10);
+      cpu_limit(10);
       parse_doc(unhexs(t[1]), std::atol(t[2].c_str()));
-      alarm(0);
+      cpu_limit(0);
     } else if (t.size() == 2 && t[0] == "lit") {
       std::cout << "lit " << lit_result(lp, unhexs(t[1])) << "\n";
     } else if (t.size() == 3 && t[0] == "enum") {
